@@ -26,6 +26,10 @@ class Unsupported(Exception):
         self.node = node
 
 
+class MaybeUnbound(Unsupported):
+    """A local read after the (cut) loop that assigns it: bound iff the loop ran -- never swallowed."""
+
+
 class V:
     """Base of all symbolic values."""
     __slots__ = ()
